@@ -157,6 +157,8 @@ pub enum Received {
 #[derive(Clone, Debug)]
 pub struct Recv {
     pub t: u64,
+    /// Virtual (paused-clock) instant of the receipt.
+    pub v: tokio::time::Instant,
     pub what: Received,
 }
 
@@ -509,7 +511,7 @@ impl Lane {
 
     async fn handle_req(&mut self, r: Option<Received>) {
         let what = r.unwrap_or(Received::Closed);
-        self.rec.lock().received.push(Recv { t: ticket(), what: what.clone() });
+        self.rec.lock().received.push(Recv { t: ticket(), v: tokio::time::Instant::now(), what: what.clone() });
         match what {
             Received::Closed | Received::DecodeError(_) => {
                 self.rd = None;
